@@ -47,7 +47,7 @@ inductive Spec
 deriving Repr, DecidableEq
 
 /-- One observed cycle: `none` = the property is violated in this cycle. -/
-def Spec.step (c : Config) : Spec → In → Out → Option Spec
+def Spec.stepCore (c : Config) : Spec → In → Out → Option Spec
   | .fresh tog, i, o =>
     if !o.valid && !o.complete && o.toggle == tog then
       if packetRequested c i then some (.sending (i.signal % 2 ^ c.width) tog 0) else some (.fresh tog)
@@ -68,6 +68,16 @@ def Spec.step (c : Config) : Spec → In → Out → Option Spec
     if !o.valid && !o.complete && o.toggle == tog then
       if packetRequested c i then some (.sending v tog 0) else some (.armed v tog)
     else none
+
+/-- ClearFeature(ENDPOINT_HALT) naming this endpoint resets the expected toggle to DATA0. -/
+def Spec.withTog (b : Bool) : Spec → Spec
+  | .fresh _ => .fresh b
+  | .sending v _ k => .sending v b k
+  | .sent v _ => .sent v b
+  | .armed v _ => .armed v b
+
+def Spec.step (c : Config) (sp : Spec) (i : In) (o : Out) : Option Spec :=
+  (sp.stepCore c i o).map (fun sp' => if i.clearHalt then sp'.withTog false else sp')
 
 def accepts (c : Config) : Spec → List (In × Out) → Bool
   | _, [] => true
@@ -152,38 +162,56 @@ def Inv (c : Config) (s : State) : Prop := s.fsm = .transmit → s.sent < nbytes
 
 theorem inv_init (c : Config) : Inv c init := by simp [Inv, init]
 
-theorem step_refines (c : Config) (hw : 1 ≤ c.width) (s : State) (i : In) (hs : Inv c s)
+theorem core_refines (c : Config) (hw : 1 ≤ c.width) (s : State) (i : In) (hs : Inv c s)
     (hi : ¬ (i.ack = true ∧ i.newToken = true)) :
-    (absOf s).step c i (step c s i).2 = some (absOf (step c s i).1) ∧ Inv c (step c s i).1 := by
+    (absOf s).stepCore c i (stepCore c s i).2 = some (absOf (stepCore c s i).1) ∧
+      Inv c (stepCore c s i).1 := by
   have hn : 1 ≤ nbytes c := by unfold nbytes; omega
   rcases s with ⟨fsm, latched, sent, toggle⟩
   cases fsm
   · -- IDLE
     by_cases hr : packetRequested c i = true
-    · simp [step, absOf, Spec.step, hr, Inv]; omega
-    · simp [step, absOf, Spec.step, hr, Inv]
+    · simp [stepCore, absOf, Spec.stepCore, hr, Inv]; omega
+    · simp [stepCore, absOf, Spec.stepCore, hr, Inv]
   · -- TRANSMIT_RESPONSE
     have hk : sent < nbytes c := hs rfl
     have hg := serialise_get c latched sent hk
     by_cases hrd : i.txReady = true
     · by_cases hl : sent + 1 = nbytes c
-      · simp [step, absOf, Spec.step, hrd, hl, hg, Inv]
-      · simp [step, absOf, Spec.step, hrd, hl, hg, Inv]; omega
-    · simp [step, absOf, Spec.step, hrd, hg, Inv]; omega
+      · simp [stepCore, absOf, Spec.stepCore, hrd, hl, hg, Inv]
+      · simp [stepCore, absOf, Spec.stepCore, hrd, hl, hg, Inv]; omega
+    · simp [stepCore, absOf, Spec.stepCore, hrd, hg, Inv]; omega
   · -- WAIT_FOR_ACK
     by_cases ha : ackTaken c i = true
     · have hnt : i.newToken = false := by
         cases h : i.newToken
         · rfl
         · exact absurd ⟨by simp [ackTaken] at ha; exact ha.1, h⟩ hi
-      simp [step, absOf, Spec.step, ha, hnt, Inv]
+      simp [stepCore, absOf, Spec.stepCore, ha, hnt, Inv]
     · by_cases hnt : i.newToken = true
-      · simp [step, absOf, Spec.step, ha, hnt, Inv]
-      · simp [step, absOf, Spec.step, ha, hnt, Inv]
+      · simp [stepCore, absOf, Spec.stepCore, ha, hnt, Inv]
+      · simp [stepCore, absOf, Spec.stepCore, ha, hnt, Inv]
   · -- RETRANSMIT
     by_cases hr : packetRequested c i = true
-    · simp [step, absOf, Spec.step, hr, Inv]; omega
-    · simp [step, absOf, Spec.step, hr, Inv]
+    · simp [stepCore, absOf, Spec.stepCore, hr, Inv]; omega
+    · simp [stepCore, absOf, Spec.stepCore, hr, Inv]
+
+theorem absOf_withTog (s : State) (b : Bool) :
+    absOf { s with toggle := b } = (absOf s).withTog b := by
+  rcases s with ⟨fsm, latched, sent, toggle⟩
+  cases fsm <;> rfl
+
+theorem step_refines (c : Config) (hw : 1 ≤ c.width) (s : State) (i : In) (hs : Inv c s)
+    (hi : ¬ (i.ack = true ∧ i.newToken = true)) :
+    (absOf s).step c i (step c s i).2 = some (absOf (step c s i).1) ∧ Inv c (step c s i).1 := by
+  obtain ⟨h1, h2⟩ := core_refines c hw s i hs hi
+  constructor
+  · simp only [Spec.step, step, h1, Option.map_some]
+    cases i.clearHalt <;> simp [absOf_withTog]
+  · simp only [step]
+    cases i.clearHalt
+    · simpa using h2
+    · simpa [Inv] using h2
 
 theorem accepts_from (c : Config) (hw : 1 ≤ c.width) (s : State) (hs : Inv c s) (ins : List In)
     (hl : LegalEnv ins) : accepts c (absOf s) (trace c s ins) = true := by
@@ -211,27 +239,30 @@ the toggle only on an ACK in WAIT_FOR_ACK — so everything sent between a fresh
 (first transmission and every retry) carries the same value and the same toggle. -/
 theorem retry_same_value_and_toggle (c : Config) (s : State) (i : In) :
     ((step c s i).1.latched ≠ s.latched → s.fsm = .idle ∧ packetRequested c i = true) ∧
-    ((step c s i).1.toggle ≠ s.toggle → s.fsm = .waitAck ∧ i.ack = true ∧ targeting c i = true) := by
+    ((step c s i).1.toggle ≠ s.toggle →
+      (s.fsm = .waitAck ∧ i.ack = true ∧ targeting c i = true) ∨ i.clearHalt = true) := by
   rcases s with ⟨fsm, latched, sent, toggle⟩
-  cases fsm <;> simp [step, ackTaken] <;> (try split) <;> simp_all <;>
-    (cases i.ack <;> cases i.newToken <;> cases targeting c i <;> simp_all)
+  cases fsm <;> cases hc : i.clearHalt <;> simp [step, stepCore, ackTaken, hc] <;> (try split) <;>
+    simp_all <;> (cases i.ack <;> cases i.newToken <;> cases targeting c i <;> simp_all)
 
 /-- Number of `status_read_complete` strobes in a trace. -/
 def completes : List (In × Out) → Nat
   | [] => 0
   | (_, o) :: r => (if o.complete then 1 else 0) + completes r
 
-theorem toggle_parity_from (c : Config) (s : State) (ins : List In) :
+theorem toggle_parity_from (c : Config) (s : State) (ins : List In)
+    (hc : ∀ i ∈ ins, i.clearHalt = false) :
     ((runState c s ins).toggle = (s.toggle != (completes (trace c s ins) % 2 == 1))) ∧
     (∀ io ∈ trace c s ins, io.2.complete = true → io.1.ack = true ∧ targeting c io.1 = true) := by
   induction ins generalizing s with
   | nil => simp [runState, trace, completes]
   | cons i is ih =>
-    obtain ⟨h1, h2⟩ := ih (step c s i).1
+    have hci : i.clearHalt = false := hc i (by simp)
+    obtain ⟨h1, h2⟩ := ih (step c s i).1 (fun j hj => hc j (by simp [hj]))
     have hstep : (step c s i).1.toggle = (s.toggle != (step c s i).2.complete) ∧
         ((step c s i).2.complete = true → i.ack = true ∧ targeting c i = true) := by
       rcases s with ⟨fsm, latched, sent, toggle⟩
-      cases fsm <;> simp [step, ackTaken] <;> (try split) <;> simp_all <;>
+      cases fsm <;> simp [step, stepCore, ackTaken, hci] <;> (try split) <;> simp_all <;>
         (cases i.ack <;> cases i.newToken <;> cases targeting c i <;> simp_all)
     have hm : ∀ n : Nat, ((1 + n) % 2 == 1) = !(n % 2 == 1) := by
       intro n
@@ -245,19 +276,20 @@ theorem toggle_parity_from (c : Config) (s : State) (ins : List In) :
       · exact hstep.2
       · exact h2 io hio
 
-/-- For every history (no environment assumption): the toggle after the history is the parity of
+/-- For every history without a ClearFeature(ENDPOINT_HALT) for this endpoint (no other assumption): the toggle after the history is the parity of
 the number of `status_read_complete` strobes, and each strobe coincides with a host ACK received while the tokenizer shows an IN token for this
 endpoint — the toggle
 advances only on an ACK, once per acknowledged poll. -/
-theorem toggle_advances_only_on_ack (c : Config) (ins : List In) :
+theorem toggle_advances_only_on_ack (c : Config) (ins : List In)
+    (hc : ∀ i ∈ ins, i.clearHalt = false) :
     ((runState c init ins).toggle = (completes (trace c init ins) % 2 == 1)) ∧
     (∀ io ∈ trace c init ins, io.2.complete = true → io.1.ack = true ∧ targeting c io.1 = true) := by
-  have h := toggle_parity_from c init ins
+  have h := toggle_parity_from c init ins hc
   simpa [init] using h
 
 /-! ## Non-vacuity: a concrete poll, a retry after a lost ACK, and the ACK (width 9, big endian) -/
 
-def exIn (rfr nt ack rdy : Bool) (sig : Nat) : In := ⟨3, true, rfr, nt, ack, rdy, sig⟩
+def exIn (rfr nt ack rdy : Bool) (sig : Nat) : In := ⟨3, true, rfr, nt, ack, rdy, sig, false⟩
 
 def exHist : List In :=
   [exIn false true false false 0x1FF, exIn true false false false 0x1A5,   -- request: 0x1A5 sampled
